@@ -25,6 +25,7 @@ FORBIDDEN = re.compile(r"\bsorry\b|\badmit\b|^\s*axiom\s|native_decide|bv_decide
 sys.path.insert(0, HERE)
 import registry  # noqa: E402
 import extract   # noqa: E402
+import translate  # noqa: E402
 
 
 def sh(cmd, cwd=None, timeout=None, env=None, stdin=None):
@@ -48,20 +49,36 @@ class Lock:
 
 # ---------------------------------------------------------------- Lean side
 
-def regenerate_extracted():
-    """T1: rewrite lean/Momo/Extracted.lean from the current headers; returns (ok, message, changed)."""
+def _write_if_changed(path, text):
+    old = open(path).read() if os.path.exists(path) else None
+    if old != text:
+        with open(path, "w") as f:
+            f.write(text)
+    return old != text
+
+
+def regenerate_extracted(pid=None):
+    """T1: rewrite lean/Momo/Extracted.lean (constants, tables) and lean/Momo/Translated.lean (function bodies translated
+    by tools/translate.py) from the current headers; returns (ok, message, changed). A function that can no longer be
+    translated only counts against the property whose theorems are about it (`pid`; None = all)."""
     try:
         text, missing = extract.generate(REPO)
     except Exception as e:  # extractor crashed on an unexpected source shape
         return False, "extractor failed: %r" % (e,), False
-    path = os.path.join(LEAN, "Momo", "Extracted.lean")
-    old = open(path).read() if os.path.exists(path) else None
-    changed = old != text
-    if changed:
-        with open(path, "w") as f:
-            f.write(text)
+    changed = _write_if_changed(os.path.join(LEAN, "Momo", "Extracted.lean"), text)
+    try:
+        ttext, tmissing = translate.generate(REPO)
+    except Exception as e:
+        return False, "translator failed: %r" % (e,), changed
+    changed = _write_if_changed(os.path.join(LEAN, "Momo", "Translated.lean"), ttext) or changed
+    msgs = []
     if missing:
-        return False, "extractor could not find: " + ", ".join(missing), changed
+        msgs.append("extractor could not find: " + ", ".join(missing))
+    tm = [m for p, m in tmissing if pid is None or p == pid]
+    if tm:
+        msgs.append("translator could not translate: " + "; ".join(tm))
+    if msgs:
+        return False, " | ".join(msgs), changed
     return True, "", changed
 
 
@@ -300,8 +317,8 @@ def check(pid, tier, seed):
     # --- corpus first: minimized past failures are part of each harness (they run at the start of main)
 
     # --- T1 + proofs
-    okx, msgx, changed = regenerate_extracted()
-    obligations.append(("T1:extract-constants", okx))
+    okx, msgx, changed = regenerate_extracted(pid)
+    obligations.append(("T1:extract-constants+translate-functions", okx))
     proof_broken = None
     if not okx:
         proof_broken = {"stage": "extract", "message": msgx}
@@ -498,6 +515,8 @@ def main():
             text, _ = extract.generate("/repo")
             with open(os.path.join(LEAN, "Momo", "Extracted.lean"), "w") as f:
                 f.write(text)
+            with open(os.path.join(LEAN, "Momo", "Translated.lean"), "w") as f:
+                f.write(translate.generate("/repo")[0])
         sys.exit(rc)
     if a.cmd == "replay":
         rp = json.load(open(a.path))
